@@ -313,6 +313,7 @@ func evalCases(st *Stats, cases []gcase, recheck bool) {
 		a, b := results[2*i], results[2*i+1]
 		if a.Err() == "SyntaxError" && len(a.Log) == 0 {
 			st.Histogram["generator-invalid-program"]++
+			st.Histogram["generator-invalid-program:"+c.kind]++
 			if st.Histogram["generator-invalid-program"] <= 2 {
 				st.Extra[fmt.Sprintf("invalid-program-%d", st.Histogram["generator-invalid-program"])] = c.src
 			}
@@ -419,6 +420,18 @@ var witnesses = []witness{
 		"var o1 = {tag: \"o1\", m() { return this.tag; }}, o2 = {tag: \"o2\", m: o1.m};\nvar b = o1;\nfunction g() { b = o2; return \"m\"; }\n$p(b[g()]?.());\n", es(api.ES2019)},
 	{"C05-F10", "a parameter with object rest is destructured in the body, after the default values of later parameters were evaluated",
 		"function fn({a = $p(\"default-a\"), ...rest}, b = $p(\"default-b\")) { return [a, rest, b]; }\nfn({x: 1});\n", es(api.ES2017)},
+	{"C05-F13", "`this.#f(arg)` with #f undefined: lowered to `__privateGet(this, _f).call(this, arg)`, the TypeError is thrown while reading .call, before the argument is evaluated",
+		"class K { #f; run() { try { this.#f($p(\"argument evaluated\")); } catch (e) { $p(e.constructor.name); } } }\nnew K().run();\n", es(api.ES2021)},
+	{"C05-F14", "class with lowered private members evaluated twice in one scope: the WeakMap is one hoisted var that the second evaluation overwrites",
+		"var objs = [];\nfor (var i = 0; i < 2; i++) { var K = class { #x = i; get() { return this.#x; } static is(o) { return #x in o; } }; objs.push([new K, K]); }\ntry { $p(objs[0][0].get()); } catch (e) { $p(e.constructor.name); }\n$p(objs[0][1].is(objs[0][0]), objs[0][1].is(objs[1][0]));\n", es(api.ES2021)},
+	{"C05-F2c", "`o.#p ??= 5` where the getter of #p reassigns `o`: the setter runs on the new object",
+		"var o, other;\nclass D { #v = 0; get #p() { o = other; return null; } set #p(v) { this.#v = v; } static run() { o = new D; other = new D; var first = o; o.#p ??= 5; return [first.#v, other.#v]; } }\n$p(D.run());\n", es(api.ES2021)},
+	{"C05-F15", "`[o.#g = d] = []`: the private member with a default value in an array pattern is not lowered, the output assigns the public property `_g`",
+		"class E { #g = 0; static run(o) { [o.#g = \"dflt\"] = []; return [o.#g, Object.keys(o)]; } }\n$p(E.run(new E));\ntry { $p(E.run({})); } catch (e) { $p(e.constructor.name); }\n", es(api.ES2021)},
+	{"C05-F16", "`for (o.#g of xs)`: the private member as a for-of target is not lowered, the output assigns the public property `_g`",
+		"class G { #g = 0; static run(o) { for (o.#g of [7]) ; return [o.#g, Object.keys(o)]; } }\n$p(G.run(new G));\ntry { $p(G.run({})); } catch (e) { $p(e.constructor.name); }\n", es(api.ES2021)},
+	{"C05-F17", "`o?.#m?.()` with private names lowered and optional chaining kept (target es2021): the method is called without this",
+		"class K { #m() { return this instanceof K ? \"this ok\" : \"this lost\"; } #o = {f() { return this === undefined ? \"this lost\" : \"this ok\"; }}; run(o) { return [o?.#m?.(), (o?.#m)?.(), o?.#o.f?.()]; } }\n$p(new K().run(new K));\n", es(api.ES2021)},
 }
 
 // Findings that were repaired by a fix: commit in /repo: their inputs (and close
